@@ -62,6 +62,7 @@ type Exec struct {
 	recDepth int
 	prune    bool
 	logicals map[string]bool
+	freeCells map[string]*Addr
 	caseName string // foreach: the type bound to $K in this run
 	feasCalls int
 }
@@ -355,6 +356,10 @@ func (x *Exec) verify() {
 		cell := st.newCell(pt, v)
 		fr.regs[fv] = Val{Ty: fv.Type(), Addr: &Addr{Kind: ALocal, Cell: cell, RootTy: pt}}
 		ctx.vars[fv.Name()] = v
+		if x.freeCells == nil {
+			x.freeCells = map[string]*Addr{}
+		}
+		x.freeCells[fv.Name()] = &Addr{Kind: ALocal, Cell: cell, RootTy: pt}
 		_ = i
 	}
 	for _, lv := range c.Logical {
@@ -417,6 +422,11 @@ func (x *Exec) checkPost(st *State, fn *ssa.Function, c *Contract, entry map[str
 	ctx := &SpecCtx{s: st, vars: map[string]Val{}, pkg: fn.Pkg.Pkg, old: st.heap0}
 	for k, v := range entry {
 		ctx.vars[k] = v
+	}
+	for k, a := range x.freeCells {
+		// captured variables of a closure verified on its own: final_<name> is the value at return
+		_ = entry[k] // the plain name stays the value at entry (as for parameters)
+		ctx.vars["final_"+k] = st.load(a)
 	}
 	bindResults(ctx, fn.Signature, res)
 	for i, en := range c.Ensures {
